@@ -207,7 +207,7 @@ def check(ctx):
     ctx.floor("C20-D2/DEP", "return of coins_to_satoshis", len(crets), 1)
     for r in crets:
         ex = ca.expand(r.value)
-        ok, why = _value_shape(ex, r, ca, digits)
+        ok, why = _value_shape(ex, r, ca, digits, lambda e: _fold(ev, mod, e))
         ctx.ob("C20-D2/DEP", ok, ca.site(r), f"value is int(group1 + group2 right-padded with '0' to {digits})",
                detail=why, func=cfi.qualname)
         src = ca.sources(r.value)
@@ -304,7 +304,14 @@ def _grammar(body, flags, digits):
     return True, ""
 
 
-def _value_shape(ex, ret, ca, digits):
+def _fold(ev, mod, e):
+    try:
+        return ev.eval_in_module(mod, e)
+    except Exception:
+        return None
+
+
+def _value_shape(ex, ret, ca, digits, fold=lambda e: e.value if isinstance(e, ast.Constant) else None):
     """int(<whole> + <fractional>.ljust(digits, '0')) where (whole, fractional) are groups 1, 2 in this order"""
     if not (isinstance(ex, ast.Call) and call_name(ex) == "int" and len(ex.args) == 1 and not ex.keywords):
         return False, f"not int(<one argument>): `{unparse(ex)[:80]}`"
@@ -313,8 +320,7 @@ def _value_shape(ex, ret, ca, digits):
         return False, "argument of int() is not a concatenation"
     left, right = a.left, a.right
     if not (isinstance(right, ast.Call) and call_name(right) == "ljust" and len(right.args) == 2
-            and isinstance(right.args[0], ast.Constant) and right.args[0].value == digits
-            and isinstance(right.args[1], ast.Constant) and right.args[1].value == "0"):
+            and fold(right.args[0]) == digits and fold(right.args[1]) == "0"):
         return False, f"fractional digits are not right-padded with '0' to {digits}: `{unparse(right)[:60]}`"
     frac = right.func.value
     which = {}
